@@ -348,7 +348,7 @@ def mutability_flags(prog, rep, rule="E5.mut"):
         k = 0
         for b, t in f.body.calls():
             fr = callee_fn(t)
-            if fr is None:
+            if not fr:
                 continue               # indirect call (a closure value): not one of the variable-layer functions
             d = fr.get("rdef") or fr["def"]
             d2 = fr["def"]
